@@ -23,15 +23,16 @@
   The merge half is also false (finding C12-F5, witnessed on the implementation, see
   proposed_findings/cd.json): removing `other` from a bank can leave an empty cost level, which
   `query_derivation` takes for an exhausted argument and stops generating successors.
-  GLOBAL THEOREM (section "global theorems"): C12_Cd_filter_nodup_partial — NO DUPLICATES WITH A FILTER: for every
+  GLOBAL THEOREM (section "global theorems"): C12_Cd_filter_nodup — NO DUPLICATES WITH A FILTER: for every
   filter (and arithmetic, grammar with dict rows — recursive ones included —, `k`, fuel), `k` calls of `next` on a
-  new enumerator yield pairwise distinct programs, all accepted by the filter (same partiality as
-  C02_Cd_nodup_partial: no `merge_program`, Boolean hypothesis `startB` on the post-prologue state).
+  new enumerator yield pairwise distinct programs, all accepted by the filter (scope as C02_Cd_nodup: no
+  `merge_program` in the history).
   NOT proved: no duplicates along histories with `merge_program`, the liveness half (false), the merge half (false).
 -/
 import PS.Model.Enum.ConstantDelay
 import PS.Proofs.Enum.CDFilter
 import PS.Proofs.Enum.CDGRun
+import PS.Proofs.Enum.CDGPrologue
 namespace PS.C12Cd
 open PS PS.CD
 
@@ -91,25 +92,22 @@ example : ((Gen.new { envF6 with filter := fun _ => true }).bind fun g =>
 
 /-! ## global theorems -/
 
-/-- **NO DUPLICATES WITH A FILTER, NONE REJECTED** (partial: no `merge_program`; Boolean hypothesis `startB` on the
-    post-prologue state).  For every filter, arithmetic, grammar whose rows have distinct keys, `k`, fuel: the programs
-    yielded by `k` calls of `next` on a new enumerator are pairwise distinct and each of them was accepted by the
-    filter; the filter only makes `query` skip programs (`_deleted`), which never re-enter a bank. -/
-theorem C12_Cd_filter_nodup_partial (E : Env α) (hG : RowsNodup E.G) (fuel k : Nat) (g g' : Gen α) (ys : List Prog) (fin : Bool)
-    (hnew : Gen.new E = some g) (hstart : (prologue E fuel g.st).all startB = true)
-    (h : take E fuel k g [] = some (g', ys, fin)) :
+/-- **NO DUPLICATES WITH A FILTER, NONE REJECTED.**  For every filter, arithmetic, grammar whose rows have distinct keys,
+    `k`, fuel: the programs yielded by `k` calls of `next` on a new enumerator are pairwise distinct and each of them was
+    accepted by the filter; the filter only makes `query` skip programs (`_deleted`), which never re-enter a bank.
+    (Scope: no `merge_program` in the history.) -/
+theorem C12_Cd_filter_nodup (E : Env α) (hG : RowsNodup E.G) (fuel k : Nat) (g g' : Gen α) (ys : List Prog) (fin : Bool)
+    (hnew : Gen.new E = some g) (h : take E fuel k g [] = some (g', ys, fin)) :
     ys.Nodup ∧ (∀ p ∈ ys, E.filter p = true) ∧ BInv g'.st := by
-  have hst : ∀ s, prologue E fuel g.st = some s → startB s = true := by
-    intro s hs; rw [hs] at hstart; simpa using hstart
-  obtain ⟨a, b, _, _⟩ := take_gi E hG fuel k g [] g' ys fin h (gen_new_gi E fuel g hnew hst) (by simp) (by simp)
+  obtain ⟨a, b, _, _⟩ := take_gi E hG fuel k g [] g' ys fin h
+    (gen_new_gi E fuel g hnew (fun s hp hS hE => prologue_tinv2 E fuel g hnew s hp hS hE)) (by simp) (by simp)
   refine ⟨b, C12_Cd_take_accepted E fuel k g g' ys fin h, ?_⟩
   by_cases hph : g'.phase = .fresh
   · exact (ninv_of_empty (E := E) (a.1 hph).2.2.1).binv
   · exact (a.2 hph).2.2.1.binv
 
-/-- non-vacuity: the grammar of finding C12-F6 with the filter rejecting every application of `f0`; its rows have
-    distinct keys, the post-prologue state passes `startB`, and the run is defined -/
-example : ((Gen.new envF6).map fun g => (prologue envF6 1000 g.st).all startB && (take envF6 1000 10 g []).isSome) = some true := by
-  decide +kernel
+/-- non-vacuity: the grammar of finding C12-F6 with the filter rejecting every application of `f0`: the run is defined
+    -/
+example : ((Gen.new envF6).map fun g => (take envF6 1000 10 g []).isSome) = some true := by decide +kernel
 
 end PS.C12Cd
